@@ -257,8 +257,5 @@ def run(ctx, rep):
     rule_positional(rep, crate)
     rep.trusted += ['rustc nightly MIR', 'engines/mirfacts']
     rep.assumptions += ['skips and subpatterns are append-only vectors whose relative order is the dependency the property exempts']
-    try:
-        from props import gen
-        gen.rules_c18(ctx, rep)
-    except ImportError:
-        pass
+    from props import gen
+    gen.rules_c18(ctx, rep)
